@@ -731,7 +731,8 @@ theorem resume_lockEnter (fl : Flags) (s : St) (j : Nat) (ad : Bool) (hp : (s.jo
   have e : s.resume fl j =
       (match (s.acquireAll j (s.jobs j).deps.length 0).2 with
        | some d =>
-         let s2 := (s.acquireAll j (s.jobs j).deps.length 0).1.check fl j d
+         let s1 := (s.acquireAll j (s.jobs j).deps.length 0).1
+         let s2 := (if fl.abortReleases then s1.releaseAll j (s1.jobs j).held else s1).check fl j d
          s2.put j { (s2.jobs j) with pc := .lockExitAbort } [] [(.lockExit, j)]
        | none =>
          let s1 := (s.acquireAll j (s.jobs j).deps.length 0).1
@@ -746,6 +747,14 @@ theorem resume_lockEnter (fl : Flags) (s : St) (j : Nat) (ad : Bool) (hp : (s.jo
   cases fa with
   | some d =>
     simp only []
+    have hbr : Bg s1 (if fl.abortReleases then s1.releaseAll j (s1.jobs j).held else s1) := by
+      split
+      · exact releaseAll_bg j _ s1
+      · exact Bg.refl s1
+    have hb := hb.trans hbr
+    have hp1 : ((if fl.abortReleases then s1.releaseAll j (s1.jobs j).held else s1).jobs j).pc = .lockEnter := by
+      rw [(hbr.fields j).1, hp1]
+    generalize (if fl.abortReleases then s1.releaseAll j (s1.jobs j).held else s1) = s1 at *
     have hb2 := check_bg fl s1 j d
     have h2 := (h.bg hb).bg hb2
     have hp2 : ((s1.check fl j d).jobs j).pc = .lockEnter := by rw [(hb2.fields j).1, hp1]
